@@ -349,6 +349,7 @@ def run (ctx):
   # ---- mechanisms this property shares with others: their checks' rules about these functions are obligations here too
   ctx.include('C09', ['Connection.read'], "packet-ins reach the learning switch through the connection's read loop and handler table")
   ctx.include('C13', ['_rx_flow_mod', 'ofp_flow_mod.show', 'ofp_match.show'], "the controller's flow-mods are carried out by the switch's flow-mod handler")
+  ctx.include('C12', ['SoftwareSwitchBase.rx_packet'], "what the controller learns from is what the switch accepts: the receive rules (a frame dropped on ingress is never seen as a source)")
   ctx.include('C18', ['_process_actions_for_packet_from_buffer', '_buffer_packet'], "buffered packets are released through the switch's use-and-free routine")
   # every switch that comes up is served over the connection it came up on: the learning switch sends through `self.connection`, so
   # an object kept from an earlier connection of the same datapath and merely re-subscribed keeps answering into the dead connection
